@@ -20,6 +20,7 @@ CONSTANTS N, NS, NP, NW,            \* objects, traced / untraced / weak slots p
           AUTOF, AUTO0,             \* auto-collect feature compiled in / enabled at the start of the run
           SZ,                       \* size in bytes of an object box in the build that replays the behaviours
           CLEAN, MaxActs,           \* cleaners feature modelled / number of cleaning actions per behaviour
+          RECORD,                   \* FALSE only in the liveness configuration (no monitor, no history)
           BUG_CLEAN_REENTRANT       \* pre-fix Cleanable::clean (action run while the map is borrowed and kept alive)
 
 VARIABLES st, mon, hist
@@ -661,8 +662,8 @@ EnvReturnClosure(s, sw) ==
 EnvPanic(s) == LET f == STop(s) IN [SPop(Emit(s, [e |-> "cbx", cb |-> f.x, o |-> CbId(f), panic |-> TRUE])) EXCEPT !.pan = "inj", !.nfaults = @ + 1]
 
 Do(s2) == /\ st' = Run(s2)
-          /\ mon' = MonSeq(mon, st'.ev, 1)
-          /\ hist' = hist \o st'.ev
+          /\ mon' = IF RECORD THEN MonSeq(mon, st'.ev, 1) ELSE mon
+          /\ hist' = IF RECORD THEN hist \o st'.ev ELSE hist
 
 ANew == /\ "new" \in OPS /\ Budget(st) /\ Full(st)
         /\ \E o \in Objs : /\ FreeId(st, o) /\ (\A o2 \in Objs : FreeId(st, o2) => o <= o2)
@@ -769,6 +770,7 @@ Spec == Init /\ [][Next]_vars
 NoViolation == DOMAIN mon.viol = {}
 View == <<[st EXCEPT !.ev = <<>>], mon>>
 
+PassBound == \A i \in DOMAIN st.stack : st.stack[i].k = "collect" => st.stack[i].x.passes <= (IF FIN THEN 10 ELSE 1)
 \* structural invariants of the model itself (evaluated at environment decision points)
 Quiescent == st.stack = <<>>
 StructInv ==
@@ -777,7 +779,15 @@ StructInv ==
   /\ Cardinality(Rng(st.pc)) = Len(st.pc)
   /\ Quiescent => (~st.col /\ ~st.fing /\ ~st.drp /\ st.rl = <<>> /\ st.nrl = <<>> /\ st.q = <<>> /\ st.pan = "")
   /\ Quiescent => \A o \in Objs : st.mark[o] \in {"N", "P"}
+  /\ PassBound
   /\ Quiescent => \A o \in Objs : st.box[o] = "live" => st.tc[o] <= st.rc[o] \/ st.nfaults > 0
+
+\* ------------------------------------------------------------------ termination (C06)
+\* Liveness configuration (no VIEW, no history): whenever the environment is asked for a decision inside a running
+\* collection, the collection eventually ends, provided callbacks eventually return (weak fairness of Next; the operation
+\* budget bounds what finalizers can keep doing, the pass loop bounds what the collector does with it).
+LiveSpec == Init /\ [][Next]_vars /\ WF_vars(Next)
+CollectionEnds == [](st.col => <>(~st.col))
 
 \* one behaviour per transition that returns control to the top level (edge cover of the explored graph)
 EmitBehaviour == IF st'.stack = <<>> THEN PrintT(<<"RP", ToJson(hist')>>) ELSE TRUE
